@@ -30,22 +30,22 @@ type TxSpec struct {
 
 // Cfg configures the model.
 type Cfg struct {
-	Nodes       []string
-	Supply      spice.Melange
-	Menu        []TxSpec // proposable through nodes
-	Crafted     []TxSpec // vertices sealed by the outside sealer M on a node's current tips
-	TrustedCraf []TxSpec // vertices sealed by the trusted sealer T
-	Truncate    bool
-	TruncCancel []int // C07: additionally offer truncations cancelled at the k-th context poll (once per node)
-	Tick        bool
-	Dup         bool // allow one duplicate delivery per (node, vertex)
-	Sync        bool // C14: evaluate sync to a spare node in every state (needs spare node name in Spare)
-	Spare       string
+	Nodes           []string
+	Supply          spice.Melange
+	Menu            []TxSpec // proposable through nodes
+	Crafted         []TxSpec // vertices sealed by the outside sealer M on a node's current tips
+	TrustedCraf     []TxSpec // vertices sealed by the trusted sealer T
+	Truncate        bool
+	TruncCancel     []int // C07: additionally offer truncations cancelled at the k-th context poll (once per node)
+	Tick            bool
+	Dup             bool // allow one duplicate delivery per (node, vertex)
+	Sync            bool // C14: evaluate sync to a spare node in every state (needs spare node name in Spare)
+	Spare           string
 	MaxProposeNodes int // a transaction may be proposed at this many different nodes (default 2)
-	TruncateAt  uint64
-	Props       map[string]bool // oracles enabled
-	Prefix      []string        // events applied (quietly) in Init, e.g. to start from a non-initial history
-	Hidden      []TxSpec        // transactions usable by Prefix events but not offered as events
+	TruncateAt      uint64
+	Props           map[string]bool // oracles enabled
+	Prefix          []string        // events applied (quietly) in Init, e.g. to start from a non-initial history
+	Hidden          []TxSpec        // transactions usable by Prefix events but not offered as events
 }
 
 // Model implements space.Model.
@@ -66,10 +66,10 @@ type Model struct {
 	truncated map[int]int
 	// overBudget: some vertex was (or may have been) dropped because the orphan buffer was full or its
 	// retries were used up; the admission guarantee of C13 is only demanded inside that budget
-	overBudget bool
+	overBudget     bool
 	cancelledTrunc map[int]bool // a cancelled (partial) truncation happened on this node
-	synced     string // C14: "<variant>=<result>" once a sync event ran (terminal)
-	syncSrc    int
+	synced         string       // C14: "<variant>=<result>" once a sync event ran (terminal)
+	syncSrc        int
 }
 
 // New creates the model.
@@ -88,11 +88,10 @@ func (m *Model) Setup() {
 	}
 }
 
-// actor resolves a cast name; "NAME~vK" is the same wallet under the address built with version byte K.
+// actor resolves a cast name; "NAME~kind" is the same wallet under an alias address (see world.Alias).
 func (m *Model) actor(n string) *world.Actor {
-	if i := strings.Index(n, "~v"); i > 0 {
-		k, _ := strconv.Atoi(n[i+2:])
-		return world.Alias(n[:i], byte(k))
+	if i := strings.Index(n, "~"); i > 0 {
+		return world.Alias(n[:i], n[i+1:])
 	}
 	return world.Cast(n)
 }
